@@ -182,6 +182,18 @@ fn main() {
                             }
                             let _ = Obs { r, c, j };
                         }
+                        // two callers query the shared problem at the same time (real threads
+                        // under miri's seeded scheduler): no data race, same values as alone
+                        let alone = observe(&prob);
+                        let (o1, o2) = std::thread::scope(|sc| {
+                            let h = sc.spawn(|| observe(&prob));
+                            let mine = observe(&prob);
+                            (mine, h.join().unwrap())
+                        });
+                        if o1 != alone || o2 != alone {
+                            println!("MISMATCH concurrent callers vs lone caller (builder={builder})");
+                            bad = true;
+                        }
                         // a short fit in between, then read everything again
                         let res = LevMarSolver::with_solver(lm).fit(prob);
                         let fr = match res {
@@ -235,6 +247,18 @@ fn main() {
                     println!("MISMATCH parallel Jacobian differs between two calls");
                     bad = true;
                 }
+            }
+            // two callers query the shared parallel problem at the same time: both column
+            // loops run on the same real pool
+            let alone = observe(&par);
+            let (o1, o2) = std::thread::scope(|sc| {
+                let h = sc.spawn(|| observe(&par));
+                let mine = observe(&par);
+                (mine, h.join().unwrap())
+            });
+            if o1 != alone || o2 != alone {
+                println!("MISMATCH concurrent callers vs lone caller on the parallel problem");
+                bad = true;
             }
             let fp = match LevMarSolver::with_solver(lm).fit(par) {
                 Ok(f) => f,
